@@ -160,6 +160,22 @@ def run(ctx):
             ctx.fail("C17-R2", lf.path, "labels vector", "cannot identify the accumulated labels vector", lf.loc())
         bad = [l for l in lab if tn.local_tainted(l)]
         if bad:
+            # second opinion, projection-aware: the taint engine is one field level deep, so a label
+            # returned by a helper packed with its times - Ok(Some((label, (start, end)))) - is
+            # tainted with them.  Every value pushed into `labels`, expanded through every merged
+            # temporary with projections pushed into the aggregates, must not mention the two
+            # parameters.
+            from ..expr import depends_on_args
+            ebl = ExprBuilder(lf)
+            pushed = []
+            for bb_, t_ in lf.calls():
+                c_ = t_["callee"]
+                if c_["k"] == "fndef" and cm.callee_name(c_).endswith("Vec::<T, A>::push") and t_["args"][1].get("k") in ("move", "copy") \
+                        and t_["args"][1]["place"]["local"] in lab:
+                    pushed.append(ebl.at(bb_).op(t_["args"][1]))
+            if pushed and all(depends_on_args(ebl, v, (1, 2)) is None for v in pushed):
+                bad = []
+        if bad:
             ctx.fail("C17-R2", lf.path, "labels depend on rate", "the parsed labels depend on sampling_rate / fperiod (tainted locals %s)" % [lf.local_name(l) for l in bad], lf.loc())
         else:
             ctx.ok("C17-R2", "parsed labels are independent of sampling_rate and fperiod (taint: only `times`/`start`/`end`/`rate` depend on them)", lf.loc())
